@@ -33,7 +33,7 @@ import py7zr.archiveinfo as ai
 from harness import arch, hdr
 from harness.sandbox import run_sandboxed
 
-GEN_DEPS = []
+GEN_DEPS = ["SevenZipDecompressor", "SevenZipDecompressor._decompress", "SevenZipDecompressor._read_data", "SevenZipDecompressor.decompress", "calculate_crc32"]
 LEVEL = "proof"
 TRUSTED_BASE = [
     "Coq 8.16.1 kernel, vm_compute (no native_compute); no axioms (Print Assumptions: closed)",
@@ -1426,6 +1426,8 @@ def declared_count(model, raw, cap=2 ** 22):
 def run(ctx):
     rep, tier = ctx["rep"], ctx["tier"]
     rng = random.Random(ctx["seed"])
+    from harness import decgen
+    decgen.check_decompress(ctx, rep, random.Random(ctx["seed"] + 7), 500 if tier == "quick" else 5000)
     model = ctx["model"]
     quick = tier == "quick"
     rep.cov["rule"] = ("a case = (archive bytes, password, mode, call sequence); archives: valid ones of every chain + fixtures, byte "
